@@ -167,7 +167,7 @@ def main() -> int:
         v = fresh[0]
         path = lib.write_replay(pid, "violation", {
             "property": pid, "what": v["what"], "key": v["key"], "replay": v["replay"],
-            "all": [{"key": x["key"], "what": x["what"]} for x in fresh[:20]],
+            "all": [{"key": x["key"], "what": x["what"], "replay": x["replay"]} for x in fresh[:20]],
             "broken": ctx.broken,
         })
         print(f"VIOLATION property={pid} replay={path}")
